@@ -32,45 +32,35 @@ class BLOB:
         return self.size
 
 
+_NUMBER_RE = re.compile(
+    r"^([\-+]?)(\d+\.?\d*|\.\d+)(?:[:; ](\d+\.?\d*))?(?:[:; ](\d+\.?\d*))?$"
+)
+
+# number of resolution units per whole unit for each sexagesimal format
+_SEXAGESIMAL_UNITS = {3: 60, 5: 600, 6: 3600, 8: 36000, 9: 360000}
+
+
 def str_to_num(s: str, fmt: str) -> Any[float, int]:
+    """Parses any number text INDI allows: integer, decimal or sexagesimal
+    with ':', ';' or blank separators. The sign applies to the whole magnitude."""
     if s is None:
         return None
     if not isinstance(s, str):
         s = str(s)
 
-    sexagesimal_match = re.match(r"^%(\d*)\.(\d+)m$", fmt)
-    if sexagesimal_match:
-        fraction_length = int(sexagesimal_match.groups()[1])
-        assert fraction_length in (
-            3,
-            5,
-            6,
-            8,
-            9,
-        ), f"Invalid sexagesimal number format: {fmt}"
+    num_match = _NUMBER_RE.match(s.strip())
+    if not num_match:
+        raise ValueError("Cannot convert string to number")
+    sign, wholes, minutes, seconds = num_match.groups()
 
-        regexps = {
-            3: r"^(\-?\d+)[:; ](\d{2})$",
-            5: r"^(\-?\d+)[:; ](\d{2}\.\d+)$",
-            6: r"^(\-?\d+)[:; ](\d{2})[:; ](\d{2})$",
-            8: r"^(\-?\d+)[:; ](\d{2})[:; ](\d{2}.\d+)$",
-            9: r"^(\-?\d+)[:; ](\d{2})[:; ](\d{2}.\d+)$",
-        }
+    if minutes is None:
+        value = float(wholes) if "." in wholes else int(wholes)
+    else:
+        value = float(wholes) + (float(minutes) / 60)
+        if seconds is not None:
+            value += float(seconds) / 3600
 
-        num_match = re.match(regexps[fraction_length], s)
-        if not num_match:
-            raise ValueError("Cannot convert string to number")
-        num_match_groups = num_match.groups()
-        wholes = num_match_groups[0]
-        minutes = num_match_groups[1]
-        seconds = num_match_groups[2] if fraction_length in (6, 8, 9) else 0
-
-        return float(wholes) + (float(minutes) / 60) + (float(seconds) / 3600)
-
-    if "." in s:
-        return float(s)
-
-    return int(s)
+    return -value if sign == "-" else value
 
 
 def num_to_str(n: Optional[float], fmt: str) -> Optional[str]:
@@ -82,26 +72,27 @@ def num_to_str(n: Optional[float], fmt: str) -> Optional[str]:
         fraction_length = int(sexagesimal_match.groups()[1])
         assert fraction_length in (3, 5, 6, 8, 9)
 
-        w = math.floor(n)
-        m = (n - w) * 60
+        # the sign applies to the whole magnitude; rounding is done once, in
+        # units of the format's resolution, so that it carries into the next field
+        sign = "-" if n < 0 else ""
+        units = _SEXAGESIMAL_UNITS[fraction_length]
+        w, rest = divmod(math.floor(abs(n) * units + 0.5), units)
 
         if fraction_length == 3:
-            return f"{w}:{m:02.0f}"
+            return f"{sign}{w}:{rest:02d}"
 
         if fraction_length == 5:
-            return f"{w}:{m:04.1f}"
-
-        mf = math.floor(m)
-        s = (m - mf) * 60
-        m = mf
+            return f"{sign}{w}:{rest // 10:02d}.{rest % 10:01d}"
 
         if fraction_length == 6:
-            return f"{w}:{m:02d}:{s:02.0f}"
+            return f"{sign}{w}:{rest // 60:02d}:{rest % 60:02d}"
 
         if fraction_length == 8:
-            return f"{w}:{m:02d}:{s:04.1f}"
+            return f"{sign}{w}:{rest // 600:02d}:{rest % 600 // 10:02d}.{rest % 10:01d}"
 
         if fraction_length == 9:
-            return f"{w}:{m:02d}:{s:05.2f}"
+            return (
+                f"{sign}{w}:{rest // 6000:02d}:{rest % 6000 // 100:02d}.{rest % 100:02d}"
+            )
 
-    return fmt % n
+    return (fmt % n).strip()
